@@ -156,7 +156,23 @@ func newScript() *Script {
 	return &Script{declared: map[string]bool{}, curTag: -1, defMemo: map[string]Term{}}
 }
 
+// sortRegistry: every struct sort ever declared (by any unit), in dependency
+// order; queries include the ones they mention.
+type sortDecl struct{ name, decl string }
+
+var sortRegistry []sortDecl
+var sortRegistered = map[string]bool{}
+
 func (s *Script) declareRaw(key, line string) {
+	if strings.HasPrefix(key, "sort:") {
+		name := strings.TrimPrefix(key, "sort:")
+		if !sortRegistered[name] {
+			sortRegistered[name] = true
+			sortRegistry = append(sortRegistry, sortDecl{name, line})
+		}
+		s.declared[key] = true
+		return
+	}
 	if s.declared[key] {
 		return
 	}
@@ -213,10 +229,45 @@ func (s *Script) define(prefix string, sort Sort, t Term) Term {
 func (s *Script) query(nfacts int, anc map[int]bool, extra ...Term) string {
 	var b strings.Builder
 	b.WriteString("(set-option :produce-models true)\n(set-logic ALL)\n")
-	for _, d := range s.decls {
-		b.WriteString(d)
-		b.WriteByte('\n')
+	// base prelude first (decls[0]), then the struct sorts the text mentions, then the rest
+	var rest strings.Builder
+	for _, d := range s.decls[1:] {
+		rest.WriteString(d)
+		rest.WriteByte('\n')
 	}
+	body := rest.String()
+	for i, f := range s.facts[:nfacts] {
+		if anc != nil && s.factTag[i] >= 0 && !anc[s.factTag[i]] {
+			continue
+		}
+		body += f
+	}
+	for _, e := range extra {
+		body += e
+	}
+	need := make([]bool, len(sortRegistry))
+	for changed := true; changed; {
+		changed = false
+		for i, sd := range sortRegistry {
+			if need[i] {
+				continue
+			}
+			if strings.Contains(body, sd.name) {
+				need[i] = true
+				body += sd.decl
+				changed = true
+			}
+		}
+	}
+	b.WriteString(s.decls[0])
+	b.WriteByte('\n')
+	for i, sd := range sortRegistry {
+		if need[i] {
+			b.WriteString(sd.decl)
+			b.WriteByte('\n')
+		}
+	}
+	b.WriteString(rest.String())
 	for i, f := range s.facts[:nfacts] {
 		if anc != nil && s.factTag[i] >= 0 && !anc[s.factTag[i]] {
 			continue
